@@ -15,9 +15,23 @@ extern CVS_MSG_T CVS_MSG;
 extern "C" int g_debug;
 extern "C" double k_floor(double);
 extern "C" double k_sqrt(double);
+extern "C" long long g_step_rel, g_step_abs;
+extern "C" int g_sim_continuing, g_sim_running;
+struct colvarproxy_stub_t {
+  bool simulation_continuing() const { return g_sim_continuing != 0; }
+  bool simulation_running() const { return g_sim_running != 0; }
+};
+struct colvarmodule;
+struct colvarmodule_main_t { colvarproxy_stub_t *proxy; };
+static colvarproxy_stub_t cvs_proxy;
+static colvarmodule_main_t cvs_main = { &cvs_proxy };
+typedef colvarproxy_stub_t colvarproxy;
 struct colvarmodule {
   typedef double real;
-  typedef long step_number;
+  typedef long long step_number;
+  static colvarmodule_main_t *main() { return &cvs_main; }
+  static step_number step_relative() { return g_step_rel; }
+  static step_number step_absolute() { return g_step_abs; }
   static bool debug() { return g_debug != 0; }
   static void log(CVS_MSG_T const &, int = 10) {}
   static int error(CVS_MSG_T const &, int code = COLVARS_ERROR) { g_errors = g_errors + 1; g_error_bits = g_error_bits | (unsigned)code; return code; }
